@@ -76,7 +76,7 @@ func less(a, b bfsItem) bool {
 func runBFS(r *core.Run, depth int, env []string, crashed *[]string) bfsReport {
 	rep := bfsReport{AlphabetSize: len(alphabet), Configurations: len(allCfgs())}
 	dir := bfsDir()
-	frontier := make([]bfsItem, 0, 12)
+	frontier := make([]bfsItem, 0, len(allCfgs()))
 	for ci := range allCfgs() {
 		frontier = append(frontier, bfsItem{C: ci, H: []int{}})
 	}
